@@ -5,12 +5,14 @@
 import UnifexModel.Driver.Entry
 import UnifexModel.Driver.Entries.StopSource
 import UnifexModel.Driver.Entries.Calc
+import UnifexModel.Driver.Entries.AnyObj
 
 namespace Unifex.Driver
 
 def table : List ModelEntries :=
   [ Entries.stopsource
   , Entries.calcEntries
+  , Entries.anyobjEntries
   ]
 
 def lookup (m c : String) : Option Entry :=
